@@ -3,6 +3,7 @@ package util
 import (
 	"context"
 	"fmt"
+	"github.com/markusressel/fan2go/internal/simhook"
 	"github.com/markusressel/fan2go/internal/ui"
 	"os/exec"
 	"strings"
@@ -10,10 +11,15 @@ import (
 )
 
 func SafeCmdExecution(executable string, args []string, timeout time.Duration) (string, error) {
+	if hookErr := simhook.BeforeExec(executable, args); hookErr != nil {
+		return "", hookErr
+	}
 	if _, err := CheckFilePermissionsForExecution(executable); err != nil {
+		simhook.AfterExec(executable, args, "", err)
 		return "", fmt.Errorf("cannot execute %s: %s", executable, err)
 	}
 
+	simhook.Yield("exec.start", executable)
 	ctx, cancel := context.WithTimeout(context.Background(), timeout)
 	defer cancel()
 
@@ -22,10 +28,12 @@ func SafeCmdExecution(executable string, args []string, timeout time.Duration) (
 
 	if ctx.Err() == context.DeadlineExceeded {
 		ui.Warning("Command timed out: %s", executable)
+		simhook.AfterExec(executable, args, "", err)
 		return "", err
 	}
 
 	if err != nil {
+		simhook.AfterExec(executable, args, "", err)
 		exitError := err.(*exec.ExitError)
 		ui.Warning("Command failed to execute: %s: %s", executable, string(exitError.Stderr))
 		return "", err
@@ -33,6 +41,7 @@ func SafeCmdExecution(executable string, args []string, timeout time.Duration) (
 
 	strout := string(out)
 	strout = strings.Trim(strout, "\n")
+	simhook.AfterExec(executable, args, strout, nil)
 
 	return strout, nil
 }
